@@ -526,6 +526,27 @@ def run(rep):
         writes_while_a_formerly_full_directory_had_room=agg["reuse_opportunities"], writes=agg["writes"],
         reopens=agg["reopens"], directories_created=agg["dirs"], largest_directory_seen_by_limit=max_seen,
         vm_compute_crosschecked_histories=nvm, proof_ok=proof_ok)
+    # a configuration change between two openings: written with n roots, reopened with only the first `keep`; keys are
+    # deleted and collected (the cleaner re-activates the directory of a deleted content, also one of a dropped root);
+    # every NEW content must still lie in <configured root>/<uuid>/<uuid> (oracle on the tree; no model)
+    rrng = C.rng_for(rep.seed, "c17-rootchange")
+    nrc = 6 if rep.tier == "quick" else 60
+    rcases = []
+    for i in range(nrc):
+        nroots = rrng.choice([2, 2, 3])
+        keep = rrng.randint(1, nroots - 1)
+        rcases.append("rc%d %d %d %d %d %d %d %s" % (i, rrng.randrange(10**6), nroots, keep, rrng.choice([20, 40, 60]), rrng.choice([5, 15, 20]),
+                                                      rrng.choice([30, 60]), rrng.choice(["inline", "inline", "server"])))
+    rout = C.run_lines(fsdbh, "rootchange", rcases, timeout=600)
+    rbad = 0
+    for c, o in zip(rcases, rout):
+        if " ok " not in o + " ":
+            rbad += 1
+            if rbad <= 2:
+                rep.violation(dict(kind="oracle", what="after reopening with fewer roots a new content was created outside the configured roots "
+                                   "(or not as <root>/<uuid>/<uuid>): " + o, case=c, impl=o,
+                                   note="case = id seed roots kept writes-before deletes writes-after mode (fsdbh rootchange)"))
+    rep.coverage["root_list_changed_between_openings"] = dict(cases=len(rcases), violations=rbad, sample=rout[:2])
     rep.assumptions = [
         "sequential histories (one operation at a time, worker pool drained before the tree is inspected)",
         "configured roots are distinct after path cleaning; nothing but fs_db writes under the roots; uuid names are fresh",
